@@ -1197,6 +1197,7 @@ pub fn reencode_family(run: &mut Run, tier: Tier) {
     for (pi, prog) in progs.iter().enumerate() {
         let em = emit(prog);
         let roles = &em.roles[0];
+        let mut singles: Vec<Inj> = vec![];
         for mode in modes {
             for (at, r) in roles.iter().enumerate() {
                 let ok = match mode {
@@ -1207,8 +1208,25 @@ pub fn reencode_family(run: &mut Run, tier: Tier) {
                     SMode::FuncEntry | SMode::FuncExit => at == 0,
                 };
                 if ok {
-                    cases.push(Case { program: prog.clone(), plan: vec![Inj { at, mode, c: 0x7500, drop_first: matches!(r, Role::If) && mode == SMode::BlockAlt, retract: false }], api: [Api::IterMode, Api::ModAt][(pi + at) % 2] });
+                    singles.push(Inj { at, mode, c: 0x7500, drop_first: matches!(r, Role::If) && mode == SMode::BlockAlt, retract: false });
                 }
+            }
+        }
+        for (k, a) in singles.iter().enumerate() {
+            cases.push(Case { program: prog.clone(), plan: vec![a.clone()], api: [Api::IterMode, Api::ModAt][(pi + a.at) % 2] });
+            // every ordered pair in which at least one injection is a special mode (pairs of plain
+            // before/after/alternate injections are C15's, whose model covers their re-encoding trivially)
+            for (l, b) in singles.iter().enumerate() {
+                if k == l {
+                    continue;
+                }
+                let special = |m: SMode| !matches!(m, SMode::Before | SMode::After | SMode::Alternate | SMode::EmptyAlternate);
+                if !special(a.mode) && !special(b.mode) {
+                    continue;
+                }
+                let mut b2 = b.clone();
+                b2.c = 0x7501;
+                cases.push(Case { program: prog.clone(), plan: vec![a.clone(), b2], api: [Api::IterMode, Api::ModAt][(pi + k + l) % 2] });
             }
         }
     }
@@ -1216,19 +1234,27 @@ pub fn reencode_family(run: &mut Run, tier: Tier) {
         .par_iter()
         .map(|c| {
             let em = emit(&c.program);
+            let what = {
+                let mut v: Vec<String> = c.plan.iter().map(|i| format!("{}@{}", i.mode.name(), role_at(&em.roles[0], i.at))).collect();
+                v.sort();
+                v.join("+")
+            };
             match apply_and_encode(&em.bytes, &c.plan, c.api, 3) {
                 Err((applied, p)) => {
                     if applied && !p.msg.starts_with("harness:") {
-                        // the first encoding may fail loudly (not C05's business); a later one failing is
-                        None
+                        // the first encoding may fail loudly (not C05's business); a LATER one failing
+                        // after the first succeeded is
+                        match apply_and_encode(&em.bytes, &c.plan, c.api, 1) {
+                            Ok(_) => Some((format!("reencode panic plan {}", what), format!("the first encoding succeeds, a later one panics: {}", p.msg))),
+                            Err(_) => None,
+                        }
                     } else {
                         None
                     }
                 }
                 Ok(outs) => {
                     if outs[0] != outs[1] || outs[1] != outs[2] {
-                        let role = role_at(&em.roles[0], c.plan[0].at);
-                        Some((format!("reencode differs plan {}@{}", c.plan[0].mode.name(), role), format!("encodings have {} / {} / {} bytes", outs[0].len(), outs[1].len(), outs[2].len())))
+                        Some((format!("reencode differs plan {}", what), format!("encodings have {} / {} / {} bytes", outs[0].len(), outs[1].len(), outs[2].len())))
                     } else {
                         None
                     }
@@ -1237,7 +1263,9 @@ pub fn reencode_family(run: &mut Run, tier: Tier) {
         })
         .collect();
     for (c, r) in cases.iter().zip(results) {
-        run.add_class("plans", &format!("{}", c.plan[0].mode.name()));
+        let mut ms: Vec<&str> = c.plan.iter().map(|i| i.mode.name()).collect();
+        ms.sort();
+        run.add_class("plans", &ms.join("+"));
         if let Some((sig, detail)) = r {
             run.add_mismatch("instrumentation plans x 3 encodings", json!(c), sig, detail, 1);
         }
